@@ -18,9 +18,17 @@ struct Case {
     /// index into TEMPLATES: hand-written single-stream programs that the grammar does not reach
     #[serde(default)]
     template: Option<usize>,
+    /// watermark-driven closes: after input i, advance the external watermark of source "A" to
+    /// (timestamp of input i + wm_after[i] * 250 ms); None = no watermark step
+    #[serde(default)]
+    wm_after: Vec<Option<u8>>,
 }
 
-const TEMPLATES: [(&str, &str); 9] = [
+const TEMPLATES: [(&str, &str); 13] = [
+    ("wm_tumbling", "stream S1 = A\n    .watermark(out_of_order: 1s)\n    .window(2s)\n    .aggregate(n: count(), f: first(id), l: last(id))\n    .emit(n: n, f: f, l: l)\n"),
+    ("wm_sliding", "stream S1 = A\n    .watermark(out_of_order: 1s)\n    .window(3s, sliding: 1s)\n    .aggregate(n: count(), f: first(id), l: last(id))\n    .emit(n: n, f: f, l: l)\n"),
+    ("wm_session", "stream S1 = A\n    .watermark(out_of_order: 1s)\n    .window(session: 2s)\n    .aggregate(n: count(), f: first(id), l: last(id))\n    .emit(n: n, f: f, l: l)\n"),
+    ("wm_tumbling_part", "stream S1 = A\n    .watermark(out_of_order: 1s)\n    .partition_by(k)\n    .window(2s)\n    .aggregate(n: count(), f: first(id), l: last(id))\n    .emit(n: n, f: f, l: l)\n"),
     ("kleene_selfref", "stream S1 = A as a\n    -> all B where v > b.v as b\n    -> C as c\n    .emit(a_id: a.id, b_id: b.id, c_id: c.id)\n"),
     ("kleene_selfref_part", "stream S1 = A as a\n    -> all B where v > b.v as b\n    -> C as c\n    .partition_by(k)\n    .emit(a_id: a.id, b_id: b.id, c_id: c.id)\n"),
     ("kleene_trailing", "stream S1 = A as a\n    -> all B where v >= a.v as b\n    .emit(a_id: a.id, b_id: b.id)\n"),
@@ -34,11 +42,14 @@ const TEMPLATES: [(&str, &str); 9] = [
 
 fn strat(sub_ms: bool) -> impl Strategy<Value = Case> {
     let o = ProgOpts { max_streams: 3, ..ProgOpts::full() };
-    (prog(o), events(36), proptest::collection::vec(0u16..1000, 36)).prop_map(move |(prog, events, us)| Case { prog, events, sub_ms_us: if sub_ms { us } else { vec![] }, template: None })
+    (prog(o), events(36), proptest::collection::vec(0u16..1000, 36)).prop_map(move |(prog, events, us)| Case { prog, events, sub_ms_us: if sub_ms { us } else { vec![] }, template: None, wm_after: vec![] })
 }
 
 fn strat_templates() -> impl Strategy<Value = Case> {
-    (0usize..TEMPLATES.len(), events(36)).prop_map(|(t, events)| Case { prog: Prog { streams: vec![] }, events, sub_ms_us: vec![], template: Some(t) })
+    (0usize..TEMPLATES.len(), events(36), proptest::collection::vec(proptest::option::weighted(0.25, 0u8..16), 36)).prop_map(|(t, events, wm)| {
+        let wm_after = if TEMPLATES[t].0.starts_with("wm_") { wm } else { vec![] };
+        Case { prog: Prog { streams: vec![] }, events, sub_ms_us: vec![], template: Some(t), wm_after }
+    })
 }
 
 fn to_event(c: &Case, i: usize) -> varpulis_runtime::event::Event {
@@ -47,6 +58,16 @@ fn to_event(c: &Case, i: usize) -> varpulis_runtime::event::Event {
         e.timestamp += chrono::Duration::microseconds(*us as i64);
     }
     e
+}
+
+/// the optional watermark step after input i (outputs of watermark-driven closes)
+fn wm_step(c: &Case, eng: &mut Eng, i: usize) -> Result<Vec<OutEv>, String> {
+    if let Some(Some(d)) = c.wm_after.get(i) {
+        let ms = vh_gen::BASE_TS_MS + c.events[i].ts_ms + (*d as i64) * 250;
+        eng.rt.block_on(eng.engine.advance_external_watermark("A", ms))?;
+        return Ok(norm(&eng.drain()));
+    }
+    Ok(vec![])
 }
 
 fn per_stream(o: &[OutEv]) -> BTreeMap<String, Vec<OutEv>> {
@@ -80,6 +101,15 @@ fn run(c: &Case, prefix: &str) -> Outcome {
             match base.process_event(to_event(c, i)) {
                 Ok(o) => outs_per_event.push(norm(&o)),
                 Err(e) => return Outcome::fail(format!("{}engine-error", prefix), e),
+            }
+            match wm_step(c, &mut base, i) {
+                Ok(mut o) => {
+                    // one watermark advance closes the windows of several partitions in hash-map
+                    // order: the order inside that one step is not part of the property
+                    o.sort();
+                    outs_per_event.last_mut().unwrap().extend(o)
+                }
+                Err(e) => return Outcome::fail(format!("{}watermark-error", prefix), e),
             }
         }
     }
@@ -120,6 +150,16 @@ fn run(c: &Case, prefix: &str) -> Outcome {
         for i in cut..n {
             match fresh.process_event(to_event(c, i)) {
                 Ok(o) => got.extend(norm(&o)),
+                Err(e) => {
+                    err = Some(e);
+                    break;
+                }
+            }
+            match wm_step(c, &mut fresh, i) {
+                Ok(mut o) => {
+                    o.sort();
+                    got.extend(o)
+                }
                 Err(e) => {
                     err = Some(e);
                     break;
